@@ -7,6 +7,7 @@ INVARIANT GenMatches
 INVARIANT NoSVarLeft
 INVARIANT PerturbedDiffers
 INVARIANT PosFOMatch
+INVARIANT SelfMatch
 INVARIANT WitnessUnique
 INVARIANT BadSeedUnmatchable
 INVARIANT WitnessesMatch
